@@ -340,9 +340,14 @@ class AuthHandler:
                 "An RSA key was specified, but no RSA pubkey algorithms are configured!"  # noqa
             )
         # Check for server-sig-algs if supported & sent
-        server_algo_str = u(
-            self.transport.server_extensions.get("server-sig-algs", b(""))
-        )
+        try:
+            server_algo_str = u(
+                self.transport.server_extensions.get("server-sig-algs", b(""))
+            )
+        except UnicodeDecodeError:
+            # May run in the caller's thread (ServiceRequestingTransport), so
+            # a bad value from the server must still be an SSHException.
+            raise SSHException("Undecodable server-sig-algs from server!")
         pubkey_algo = None
         # Prefer to match against server-sig-algs
         if server_algo_str:
